@@ -89,3 +89,98 @@ Proof.
   repeat split; try (vm_compute; reflexivity); destruct fuzzy; vm_compute; reflexivity.
 Qed.
 Print Assumptions C16_word_boundary_refuted.
+
+(* The order of the one-after-the-other rewriting.  A consumer of the files out.txt of two producers of its own
+   stage, the name of one being a \b-delimited tail of the name of the other (gen / pre-gen, gen / pre.gen) or a
+   producer and a file of another producer below a folder called like it (gen/out.txt / outer/gen/out.txt).
+   Visited shortest spelling first, the short reference is replaced INSIDE the long one: a fragment of the producer
+   name survives and the hash of the wrong file stands for the second file, whereas longest first (the code's order,
+   [code_order]) gives the simultaneous substitution (C16_longest_first in Property.v). *)
+Definition pfile (key text : string) (p : nat) (content : string) : dref :=
+  {| d_key := key; d_text := text; d_location := ""; d_mtime := 0; d_prod := Some p; d_fileref := "out.txt";
+     d_method := "ref"; d_state := FFile content |}.
+Definition tail_comp (long : string) : comp :=
+  {| c_name := "consumer"; c_stage := 0; c_location := "instance"; c_exe := "diff"; c_args := [TRef 1; TLit " "; TRef 0];
+     c_refs := [pfile "stage0.gen/out.txt:ref" "gen/out.txt:ref" 0 "ONE"; pfile ("stage0." ++ long) long 1 "TWO"];
+     c_backend := BLocal |}.
+Theorem C16_shortest_first_refuted :
+  let md5 := fun s => "<" ++ s ++ ">" in
+  forall ph,
+  forallb (fun long =>
+    let c := tail_comp long in let disc := ["gen/out.txt:ref"; long] in
+    (* the code's order is longest first and gives what the property asks for *)
+    list_eqb Nat.eqb (code_order (c_refs c)) [1; 0]%nat &&
+    opt_eqb String.eqb (option_map i_args (info_of_chars md5 false ph disc (code_order (c_refs c)) c)) (Some "file:<TWO>:ref file:<ONE>:ref") &&
+    opt_eqb String.eqb (option_map i_args (info_of md5 false ph c)) (Some "file:<TWO>:ref file:<ONE>:ref") &&
+    (* shortest first does not *)
+    negb (opt_eqb String.eqb (option_map i_args (info_of_chars md5 false ph disc [0; 1]%nat c)) (option_map i_args (info_of md5 false ph c))))
+    ["pre-gen/out.txt:ref"; "pre.gen/out.txt:ref"; "outer/gen/out.txt:ref"; "stage0.pre-gen/out.txt:ref"] = true /\
+  option_map i_args (info_of_chars md5 false ph ["gen/out.txt:ref"; "pre-gen/out.txt:ref"] [0; 1]%nat (tail_comp "pre-gen/out.txt:ref"))
+    = Some "pre-file:<ONE>:ref file:<ONE>:ref" /\
+  rewrite_all [("gen:ref", "producer:H1:ref"); ("a.gen:ref", "producer:H2:ref")] "a.gen:ref gen:ref" = "a.producer:H1:ref producer:H1:ref" /\
+  longest_first [("gen/out.txt:ref", "file:<ONE>:ref"); ("pre-gen/out.txt:ref", "file:<TWO>:ref")] = false.
+Proof. intros md5 ph. repeat split; vm_compute; reflexivity. Qed.
+Print Assumptions C16_shortest_first_refuted.
+
+(* The code sorts by the length of the ABSOLUTE reference string, not of the spelling it substitutes.
+   A consumer in stage 1 that reads out.txt of the producer gen of its own stage (written gen/out.txt:ref) and of
+   the producer gen of stage 0 (stage0.gen/out.txt:ref): both absolute strings have the same length, the sort is
+   stable, so when the relative reference is listed first it is visited first and replaced inside the absolute
+   one: "stage0." survives (the hash depends on the stage index) and the contents of the file of stage 0 are not
+   in the arguments.  With a consumer in stage 10 and the other producer in stage 1 the listing order does not
+   matter: the absolute string of the relative reference is the longer one.
+   NOT REACHABLE through a validated experiment: ComponentSpecification.checkDataReferences (the validation of the
+   command line) rejects these descriptions, so no finding is recorded; the run keeps generating them and counts
+   them as rejected. *)
+Definition same_name_comp (own other : string) (swap : bool) : comp :=
+  let r_own := pfile ("stage" ++ own ++ ".gen/out.txt:ref") "gen/out.txt:ref" 1 "TWO" in
+  let r_other := pfile ("stage" ++ other ++ ".gen/out.txt:ref") ("stage" ++ other ++ ".gen/out.txt:ref") 0 "ONE" in
+  {| c_name := "consumer"; c_stage := 1; c_location := "instance"; c_exe := "diff";
+     c_args := if swap then [TRef 1; TLit " "; TRef 0] else [TRef 0; TLit " "; TRef 1];
+     c_refs := if swap then [r_other; r_own] else [r_own; r_other]; c_backend := BLocal |}.
+Theorem C16_sort_key_refuted :
+  let md5 := fun s => "<" ++ s ++ ">" in
+  forall ph,
+  let run := fun own other swap =>
+    let c := same_name_comp own other swap in
+    option_map i_args (info_of_chars md5 false ph ["gen/out.txt:ref"; "stage" ++ other ++ ".gen/out.txt:ref"] (code_order (c_refs c)) c) in
+  (* listed first: visited first *)
+  code_order (c_refs (same_name_comp "1" "0" false)) = [0; 1]%nat /\
+  run "1" "0" false = Some "file:<TWO>:ref stage0.file:<TWO>:ref" /\
+  option_map i_args (info_of md5 false ph (same_name_comp "1" "0" false)) = Some "file:<TWO>:ref file:<ONE>:ref" /\
+  (* the same work with the other producer in another stage: other arguments, other hash *)
+  run "3" "2" false = Some "file:<TWO>:ref stage2.file:<TWO>:ref" /\
+  (* listed second: fine *)
+  run "1" "0" true = Some "file:<TWO>:ref file:<ONE>:ref" /\
+  (* stage 10 / stage 1: whatever the listing *)
+  run "10" "1" true = Some "file:<TWO>:ref stage1.file:<TWO>:ref" /\
+  run "10" "1" false = Some "file:<TWO>:ref stage1.file:<TWO>:ref".
+Proof. intros md5 ph. repeat split; vm_compute; reflexivity. Qed.
+Print Assumptions C16_sort_key_refuted.
+
+(* F16e (open): a later substitution also rewrites what an earlier one wrote ([inert] fails).  The fuzzy
+   replacement of a file made by a producer ends in <path below the producer>:<method>; the consumer reads
+   outer/gen/out.txt:ref and gen/out.txt:ref (producers outer and gen of its stage): the code's order visits the
+   long reference first, then rewrites the tail of its replacement.  The fuzzy arguments (hence the fuzzy hash)
+   depend on the name of the producer gen: called alpha (file outer/gen/out.txt unchanged), the same work gets
+   the arguments the property asks for.  The strong replacement (file:<md5>:ref) is inert. *)
+Definition inner_comp (name : string) : comp :=
+  {| c_name := "consumer"; c_stage := 0; c_location := "instance"; c_exe := "cat"; c_args := [TRef 0; TLit " "; TRef 1];
+     c_refs := [ {| d_key := "stage0.outer/gen/out.txt:ref"; d_text := "outer/gen/out.txt:ref"; d_location := ""; d_mtime := 0;
+                    d_prod := Some 1%nat; d_fileref := "gen/out.txt"; d_method := "ref"; d_state := FFile "TWO" |};
+                 pfile ("stage0." ++ name ++ "/out.txt:ref") (name ++ "/out.txt:ref") 0 "ONE" ];
+     c_backend := BLocal |}.
+Theorem C16_fuzzy_replacement_refuted :
+  let md5 := fun s => "<" ++ s ++ ">" in
+  let ph := fun p : nat => Some (if Nat.eqb p 0 then "H0" else "H1") in
+  let run := fun fuzzy name =>
+    option_map i_args (info_of_chars md5 fuzzy ph ["outer/gen/out.txt:ref"; name ++ "/out.txt:ref"] (code_order (c_refs (inner_comp name)))
+                                     (inner_comp name)) in
+  code_order (c_refs (inner_comp "gen")) = [0; 1]%nat /\
+  run true "gen" = Some "file:fuzzy#H1#file:fuzzy#H0#out.txt:ref file:fuzzy#H0#out.txt:ref" /\
+  option_map i_args (info_of md5 true ph (inner_comp "gen")) = Some "file:fuzzy#H1#gen/out.txt:ref file:fuzzy#H0#out.txt:ref" /\
+  run true "alpha" = Some "file:fuzzy#H1#gen/out.txt:ref file:fuzzy#H0#out.txt:ref" /\
+  run false "gen" = option_map i_args (info_of md5 false ph (inner_comp "gen")) /\
+  inert [("outer/gen/out.txt:ref", "file:fuzzy#H1#gen/out.txt:ref"); ("gen/out.txt:ref", "file:fuzzy#H0#out.txt:ref")] = false.
+Proof. repeat split; vm_compute; reflexivity. Qed.
+Print Assumptions C16_fuzzy_replacement_refuted.
